@@ -266,6 +266,11 @@ func (a *arrayObject) setOwnStr(name unistring.String, val Value, throw bool) bo
 		return a._setOwnIdx(idx, val, throw)
 	} else {
 		if name == "length" {
+			if !a.lengthProp.writable {
+				// OrdinarySet rejects a non-writable property before the value is looked at (no ToNumber, no RangeError)
+				a.val.runtime.typeErrorResult(throw, "length is not writable")
+				return false
+			}
 			return a.setLength(a.val.runtime.toLengthUint32(val), throw)
 		} else {
 			return a.baseObject.setOwnStr(name, val, throw)
